@@ -260,3 +260,13 @@ def repro(c):
     if a[0] == 'mask':
         return "ip = IPAddress(%d, %d); ip.is_netmask(), ip.is_hostmask(), ip.netmask_bits()" % (a[2], a[1])
     return "n = IPNetwork((%d, %d), version=%d); apply setter ops %r in order (v=value, p=prefixlen, m=netmask)" % (a[2], a[3], a[1], a[4])
+
+
+def shrink(c, fails):
+    """drop setter operations while the history still violates the property"""
+    a = c.args
+    if a[0] not in ('sets', 'setsT'):
+        return c
+    kind, ver, v, p, ops = a
+    red = common.shrink_seq(ops, lambda l: len(l) >= 1 and fails(Case(None, c.tag, (kind, ver, v, p, tuple(l)))))
+    return Case(None, c.tag, (kind, ver, v, p, tuple(red)))
